@@ -70,6 +70,15 @@ def gen_cases(rng, tier):
                 ham = {'cls': 'sparse', 'rank': 0, 'entries': ents, 'e0': [0, 0], 'real': False}
             ham['e0'] = rng.choice([[0, 0], [1, 0]])
             hams.append(ham)
+        if mode == 'ns' and rng.random() < 0.6:
+            # a "field scan": two restricted Hamiltonians built from the SAME two-body array object with different one-body
+            # matrices (in the history; the fresh process rebuilds each from its own arrays)
+            base = c01.gen_ham(rng, 'restricted', 2, norb, 'sparse', rng.random() < 0.5, True)
+            other = c01.gen_ham(rng, 'restricted', 1, norb, 'dense', base['real'], True)
+            two = [e for e in base['entries'] if len(e[0]) == 4]
+            hams[0] = dict(base, e0=[0, 0])
+            hams[1] = {'cls': 'restricted', 'rank': 2, 'entries': [e for e in other['entries'] if len(e[0]) == 2] + two,
+                       'e0': [0, 0], 'real': base['real'], 'share_rank2_with': 0}
         ops = []
         for _k in range(rng.randint(4, 12 if tier == 'quick' else 25)):
             kind = rng.choice(['apply', 'apply', 'evolve', 'evolve_inplace', 'rdm', 'expect', 'add', 'axpy', 'scale',
@@ -213,6 +222,14 @@ def run_impl(case, mode):
         W[1] = copy.deepcopy(W[0])
         fqeio.set_state(W[1], case['wf'][1])
         H = [_mkham(h, norb) for h in case['hams']]
+        for k, h in enumerate(case['hams']):
+            if 'share_rank2_with' in h:
+                j = h['share_rank2_with']
+                dt = float if h.get('real') else complex
+                t_j = fqeio.dense_tensors(norb, 2, case['hams'][j]['entries'], dt)
+                t_k = fqeio.dense_tensors(norb, 2, h['entries'], dt)
+                H[j] = fqe.get_restricted_hamiltonian((t_j[0], t_j[1]), e_0=complex(*case['hams'][j]['e0']))
+                H[k] = fqe.get_restricted_hamiltonian((t_k[0], t_j[1]), e_0=complex(*h['e0']))     # the same array object
         return W, H
 
     if case.get('phase') == 'fresh':
